@@ -385,8 +385,12 @@ def b_format(it, args, kwargs, node):
         sv = it.resolve(args[1])
         if isinstance(sv, SeqV) and sv.is_lit():
             spec = sv.lit_value()
+        elif seqops.split_spec(it, sv) is not None:
+            pre, w, suf = seqops.split_spec(it, sv)
+            return seqops.format_value_symw(it, v, pre, w, suf, node)
         else:
-            it.note_unknown(node, f'format() with non-constant spec {sv!r}')
+            if isinstance(v, (IntV, SeqV)):
+                it.note_unknown(node, f'format() with non-constant spec {sv!r}')
             return seqops.opaque_fresh(it, 'str', 'format(?)', deps=(v,), tags=value_tags(v))
     return it.do_format(v, spec, node)
 
